@@ -233,4 +233,71 @@ example : (DgV.set [("a", .arr exA)] "b" (.arr exB)) = .error .valueErr := by
 example : ∃ g', DgV.set [("a", .arr exA)] "b" (.arr exA) = .ok g' ∧ dictKeys g' = ["a", "b"] :=
   ⟨_, rfl, by decide⟩
 
+/-! ### Dataset level: the `groups` table of a Dataset (group name -> Datagroup object) is maintained with the same
+`dictSet` / `dictDel` functions (`Exec`: `ds_set`, `ds_del`, `ds_pop`, `ds_update`, `ds_clear`), for any kind of value -/
+
+section Dataset
+variable {β : Type}
+
+/-- dictionary operations on a Dataset's table once the type gate (`isinstance(value, Datagroup)`) has let them through -/
+inductive TblOp (β : Type)
+  | set (k : String) (v : β)
+  | del (k : String)
+  | clear
+
+def tblStep (d : List (String × β)) : TblOp β → List (String × β)
+  | .set k v => dictSet d k v
+  | .del k => dictDel d k
+  | .clear => []
+
+def tblAbs (d : List (String × β)) : Dict β := ⟨dictKeys d, dictGet? d⟩
+
+def tblSpec (s : Dict β) : TblOp β → Dict β
+  | .set k v => s.set k v
+  | .del k => s.del k
+  | .clear => Dict.empty
+
+theorem tblStep_refines (d : List (String × β)) (op : TblOp β) : tblAbs (tblStep d op) = tblSpec (tblAbs d) op := by
+  cases op with
+  | set k v =>
+    have hk : (tblAbs (dictSet d k v)).keys = ((tblAbs d).set k v).keys := by
+      simp only [tblAbs, Dict.set, dictKeys_dictSet]
+      by_cases h : k ∈ dictKeys d <;> simp [h]
+    have hv : (tblAbs (dictSet d k v)).val = ((tblAbs d).set k v).val := by
+      funext k'; simp [tblAbs, Dict.set, dictGet?_dictSet]
+    show tblAbs (dictSet d k v) = (tblAbs d).set k v
+    cases h1 : tblAbs (dictSet d k v); cases h2 : (tblAbs d).set k v
+    simp_all
+  | del k =>
+    have hk : (tblAbs (dictDel d k)).keys = ((tblAbs d).del k).keys := by
+      simp [tblAbs, Dict.del, dictKeys_dictDel]
+    have hv : (tblAbs (dictDel d k)).val = ((tblAbs d).del k).val := by
+      funext k'; simp [tblAbs, Dict.del, dictGet?_dictDel]
+    show tblAbs (dictDel d k) = (tblAbs d).del k
+    cases h1 : tblAbs (dictDel d k); cases h2 : (tblAbs d).del k
+    simp_all
+  | clear => rfl
+
+/-- **C20 (Dataset)**: after any sequence of insertions / replacements, deletions (del, pop) and clear, the table of
+    a Dataset is the insertion-ordered dictionary obtained by the same operations, and its keys stay distinct -/
+theorem C20_dataset_refines_dict (d : List (String × β)) (ops : List (TblOp β)) :
+    tblAbs (ops.foldl tblStep d) = ops.foldl tblSpec (tblAbs d) := by
+  induction ops generalizing d with
+  | nil => rfl
+  | cons op ops ih => simp only [List.foldl_cons]; rw [ih, tblStep_refines]
+
+theorem C20_dataset_keys_nodup (d : List (String × β)) (ops : List (TblOp β)) (h : (dictKeys d).Nodup) :
+    (dictKeys (ops.foldl tblStep d)).Nodup := by
+  induction ops generalizing d with
+  | nil => exact h
+  | cons op ops ih =>
+    simp only [List.foldl_cons]
+    apply ih
+    cases op with
+    | set k v => exact nodup_dictSet d k v h
+    | del k => exact nodup_dictDel d k h
+    | clear => simp [tblStep, dictKeys]
+
+end Dataset
+
 end Osyris.C20
